@@ -59,10 +59,29 @@ func (c Const) Validate(v bytes.Bytes) {
 		return
 	}
 
+	// Numbers are compared by their value: 1, 1e0 and 10e-1 are the same number.
+	if sameNumber(v, c.nodeValue) {
+		return
+	}
+
 	// Strings are compared by their decoded value: "a" and "\u0061" are the same string.
 	if v.InQuotes() != c.nodeValue.InQuotes() || v.Unquote().String() != c.nodeValue.Unquote().String() {
 		panic(errors.Format(errors.ErrInvalidConst, c.nodeValue.String()))
 	}
+}
+
+// sameNumber reports whether a and b are both JSON numbers with the same value,
+// whatever their spelling (exponent, trailing zeros, negative zero).
+func sameNumber(a, b bytes.Bytes) bool {
+	x, err := json.NewNumber(a)
+	if err != nil {
+		return false
+	}
+	y, err := json.NewNumber(b)
+	if err != nil {
+		return false
+	}
+	return x.Equal(y)
 }
 
 func (c Const) ASTNode() jschema.RuleASTNode {
